@@ -504,5 +504,6 @@ def F8(m, R):
                 construct='%s identity' % nme)
     # the iterator removes by identity
     nx = m.fn('%s.__next__' % ro.ITERATOR)
-    uses = [x for x in nx.walk() if isinstance(x, ast.Call) and call_name(x) == ro.IDFIND1]
+    from ..shapes import with_helpers
+    uses = [x for g_ in with_helpers(m, nx, 1) for x in g_.walk() if isinstance(x, ast.Call) and call_name(x) == ro.IDFIND1]
     R.check(bool(uses), nx, uses[0] if uses else nx.node, 'the iterator finds the marker to stop by identity', construct='iterator identity')
